@@ -237,7 +237,7 @@ func runCheck(prop, tier string, seed int) int {
 	} else {
 		loadErr = fmt.Errorf("no contract is tagged with property %s", prop)
 	}
-	secs := 10
+	secs := 15 // per obligation; the slowest one takes under 6 s on an idle machine, a retry gets four times as long
 	if tier == "thorough" {
 		secs = 60
 	}
